@@ -283,6 +283,18 @@ class StoredPattern:  # pylint: disable=too-many-instance-attributes
     """Human-readable description of the detected pattern."""
 
 
+
+def _sql_text(value: str | None) -> str | None:
+    """Make a string bindable by SQLite.
+
+    File names that are not valid UTF-8 and string literals such as "\\ud800" carry lone
+    surrogates, which sqlite3 refuses to encode (UnicodeEncodeError); they are stored escaped.
+    """
+    if value is None:
+        return None
+    return value.encode("utf-8", errors="backslashreplace").decode("utf-8")
+
+
 class StringlyTypedStorage:  # thailint: ignore[srp]
     """SQLite-backed storage for stringly-typed pattern detection.
 
@@ -344,14 +356,14 @@ class StringlyTypedStorage:  # thailint: ignore[srp]
                     string_set_hash, string_values, pattern_type, details)
                    VALUES (?, ?, ?, ?, ?, ?, ?, ?)""",
                 (
-                    str(pattern.file_path),
+                    _sql_text(str(pattern.file_path)),
                     pattern.line_number,
                     pattern.column,
-                    pattern.variable_name,
+                    _sql_text(pattern.variable_name),
                     pattern.string_set_hash,
                     json.dumps(pattern.string_values),
                     pattern.pattern_type,
-                    pattern.details,
+                    _sql_text(pattern.details),
                 ),
             )
 
@@ -433,12 +445,12 @@ class StringlyTypedStorage:  # thailint: ignore[srp]
                     param_index, string_value)
                    VALUES (?, ?, ?, ?, ?, ?)""",
                 (
-                    str(call.file_path),
+                    _sql_text(str(call.file_path)),
                     call.line_number,
                     call.column,
-                    call.function_name,
+                    _sql_text(call.function_name),
                     call.param_index,
-                    call.string_value,
+                    _sql_text(call.string_value),
                 ),
             )
 
@@ -534,11 +546,11 @@ class StringlyTypedStorage:  # thailint: ignore[srp]
                     compared_value, operator)
                    VALUES (?, ?, ?, ?, ?, ?)""",
                 (
-                    str(comparison.file_path),
+                    _sql_text(str(comparison.file_path)),
                     comparison.line_number,
                     comparison.column,
-                    comparison.variable_name,
-                    comparison.compared_value,
+                    _sql_text(comparison.variable_name),
+                    _sql_text(comparison.compared_value),
                     comparison.operator,
                 ),
             )
